@@ -296,7 +296,7 @@ def r7(ctx):
     rule = "C20.R7"
     ctx.rule(rule, "all-or-error content reads: the DER / BER primitive readers (impl BasicRead for T, rw::der) fill their buffers with "
                    "Read::read_exact; a call of Read::read whose byte count is not used accepts a short read (BufReader, chained or "
-                   "network readers) and leaves content octets unconsumed")
+                   "network readers) and leaves content octets unconsumed; likewise the writers use Write::write_all, not a Write::write whose count is ignored")
     P = ctx.program()
     n = 0
     exact = 0
@@ -307,6 +307,19 @@ def r7(ctx):
             continue
         for cs in b.calls():
             tr = (cs.trait or "")
+            if tr.endswith("io::Write") and cs.name in ("write", "write_vectored"):
+                # the mirror image on the writer: `write` may accept fewer octets than offered
+                n += 1
+                usedw = payload_used(b, cs)
+                keyw = "%s#%s" % (X.short(b.root or b.path), cs.name)
+                dw = {"function": b.path, "call": cs.name, "byte_count_used": usedw}
+                if not usedw:
+                    ctx.fail(rule, keyw, "%s calls Write::%s and ignores how many bytes were written: a sink that accepts fewer octets per "
+                                         "call (a slice, a pipe) receives truncated content under a length that announces all of it"
+                             % (X.short(b.root or b.path), cs.name), cs.loc(), dw)
+                else:
+                    ctx.ok(rule, keyw, dw)
+                continue
             if not tr.endswith("io::Read"):
                 continue
             if cs.name == "read_exact":
